@@ -106,15 +106,20 @@ impl DataLog {
         id: ConnectionId,
         filter: &Filter,
     ) -> Option<DataRequest> {
+        // a shared subscription ($share/group/filter) reads the log of the plain filter
+        let log_filter = filter
+            .strip_prefix("$share/")
+            .and_then(|s| s.split_once('/'))
+            .map_or(filter.as_str(), |(_group, path)| path);
         let data = self
             .native
-            .get_mut(*self.filter_indexes.get(filter)?)
+            .get_mut(*self.filter_indexes.get(log_filter)?)
             .unwrap();
         let waiters = data.waiters.get_mut();
 
         waiters
             .iter()
-            .position(|&(conn_id, _)| conn_id == id)
+            .position(|(conn_id, request)| *conn_id == id && request.filter == *filter)
             .and_then(|index| {
                 waiters
                     .swap_remove_back(index)
